@@ -265,6 +265,32 @@ add("C20", "exploration",
     "(lists linked along redundant paths) is listed in its own stratum and keys.",
     "DESIGN.md section 4 C20")
 
+
+# strata added after the first build (seeded-change campaign, DESIGN.md section 8); appended to
+# the text of each check so that the claim names what the check now drives
+ADDED = {
+ "C01": "String option grid, Instance given by class name (judged again after lazy resolution), ValidatedTuple over converting members, validated Property traits in declaring class and subclasses, variants derived by cloning (allow_none), and families of differently configured traits of one type judged interleaved in one process",
+ "C02": "shared-object dynamic defaults, first assignment before any read, quiet sets, handlers supplied by mixins / subclasses, a second trait with its own comparison mode, listeners leaving / joining the notifier list during delivery, trait definition objects reused across attributes and classes",
+ "C03": "global-manager swaps, live Map mappings, nested compounds with slow members, and the whole sweep repeated on pickled / copied / cloned / re-added CTraits",
+ "C04": "owners with a false truth value, raw items equal to stored ones, and item traits that are value-dependent refinements of the Base scalar traits (user subclasses, File(exists=True))",
+ "C05": "the list itself as the argument, NaN-like items, equal-but-distinct twins of stored items, a non-idempotent validator, unwatched lists and copies continued as the main object, and listeners that change the list they are told about (a mirror registered first rebuilds the contents from events)",
+ "C06": "notifier-free dicts and copies, raw keys equal to stored keys, a copy-isolation census, and re-entrant listeners (mirror first, reactor second, recorder last)",
+ "C07": "hostile argument containers, unwatched sets and copies, and re-entrant listeners with the built-in model applying nested operations at the same points",
+ "C08": "named dynamic traits, add_trait over observed names, pickle snapshots mid-history, the list form of expressions, containers nested in containers, and in-place routes on container objects held in variables",
+ "C09": "a stale-owner stratum with address reuse, the installed UI handler as part of the history, multi-item events, and re-definition of observed names (add_trait / remove_trait) between registration and removal",
+ "C10": "metadata-filtered queries, nested-container defaults, sibling transfers and in-place routes taking a sibling's container as argument, value-equality classes, del / reset_traits of stored values",
+ "C11": "round trips inside histories, inherited __prefix__, delegate references cleared and set again, re-entrant handlers changing the same target during delivery",
+ "C12": "inherited getters, containers on child items, default nested objects, transient lists, construction-time touches, dependencies that are instance traits, shared objects under owner churn with address reuse",
+ "C13": "re-entrant trait_added listeners, ReadOnly defined by declaration, one definition object bound to several names / classes, copy round trips of objects carrying instance traits, bookkeeping instance traits",
+ "C14": "a minimal one-feature class family, awkward legal trait names x listener flavours, a lazy-default family (defaults depending on transient state, unread before the copy) and a graph family (trees of nested objects, every clone mode)",
+ "C15": "what '+name' and '*' select on live classes carrying metadata of every truthiness class, dunder metadata names",
+ "C16": "stale containers, equal-but-distinct replacements, doubly registered containers, several owners' bound methods under one name with owners collected mid-history",
+ "C17": "per-object conditional factories, late ABC registration, manager swaps, the same object re-assigned after the adaptation answer changed, re-entrant factories",
+ "C18": "further scenarios (anytrait handlers removing each other, default AttributeError under warning filters, delegates dropped or handed out as temporaries during a delegated access) and chaos actions that drop attribute-held objects",
+ "C19": "quiet multi-name sets, sync_trait with partner validators, PrototypedFrom forwarding after rejections, and a lifetime stratum comparing what is reclaimed with the failure-free twin",
+ "C20": "List traits with default methods / explicit defaults / comparison modes, partner replacement, heterogeneous partners whose narrower traits reject some changes",
+}
+
 NOT_YET = {}
 
 
@@ -282,7 +308,11 @@ def main():
             "evidence_file": "evidence/%s.json" % pid,
             "replay_cmd_template": "./check %s --replay {path}" % pid,
             "engine": "vf",
-            "level_claimed": {"category": c["category"], "text": c["text"], "design_ref": c["ref"]},
+            "level_claimed": {"category": c["category"],
+                              "text": c["text"] + (" Added since the first build (each with its own "
+                                                   "counters and observation gates): " + ADDED[pid] + "."
+                                                   if pid in ADDED else ""),
+                              "design_ref": c["ref"] + "; section 8"},
             "level_note": c["note"],
             "technique": c["technique"],
         })
